@@ -88,7 +88,7 @@ struct XPrint : Engine {
         init();
         std::vector<std::string> st; int n = (int)cfg.optl("tree_nodes", cfg.thorough() ? 6 : 5);
         for (int k = 1; k <= n; k++) st.push_back("trees" + std::to_string(k));
-        st.push_back("strings"); st.push_back("numbers"); st.push_back("growth");
+        st.push_back("strings"); st.push_back("lengths"); st.push_back("numbers"); st.push_back("growth");
         if (mode != M_ROUND) st.push_back("special");
         if (cfg.thorough()) st.push_back("numbers_dense");
         return st;
@@ -130,6 +130,16 @@ struct XPrint : Engine {
             for (auto& s : strs) for (int ctx = 0; ctx < 3; ctx++) {
                 if (!pool_take()) continue;
                 RV v; if (ctx == 0) v = RV::string(s); else if (ctx == 1) { v = RV::mk(RV::Obj); v.obj.emplace_back(s, RV::number(0)); } else { v = RV::mk(RV::Arr); v.arr.push_back(RV::string(s)); v.arr.push_back(RV::string(s)); }
+                emit(v);
+            }
+        } else if (stage == "lengths") {
+            // string values and member names of every length 0..300 and around 512 / 1024 / 4096: plain, with a character that needs escaping first / last / every 16th, all escapes
+            std::vector<int> lad; for (int i = 0; i <= 300; i++) lad.push_back(i); for (int i : { 511, 512, 513, 1023, 1024, 1025 }) lad.push_back(i); if (mode != M_PREALLOC) for (int i : { 4095, 4096, 4097 }) lad.push_back(i);
+            for (int L : lad) for (int pat = 0; pat < 6; pat++) for (int ctx = 0; ctx < 3; ctx++) {
+                if (!pool_take()) continue; if (L == 0 && pat) continue;
+                std::string sv((size_t)L, 'p');
+                if (pat == 1) sv[0] = '"'; else if (pat == 2) sv[(size_t)L - 1] = '\\'; else if (pat == 3) { for (int i = 15; i < L; i += 16) sv[(size_t)i] = '\n'; } else if (pat == 4) { for (auto& ch : sv) ch = '\x01'; } else if (pat == 5) { for (int i = 0; i < L; i++) sv[(size_t)i] = (i % 2) ? (char)0xA9 : (char)0xC3; if (L % 2) sv[(size_t)L - 1] = 'e'; }
+                RV v; if (ctx == 0) v = RV::string(sv); else if (ctx == 1) { v = RV::mk(RV::Obj); v.obj.emplace_back(sv, RV::string(sv)); v.obj.emplace_back("z", RV::number(1)); } else { v = RV::mk(RV::Arr); v.arr.push_back(RV::number(-1.5)); v.arr.push_back(RV::string(sv)); v.arr.push_back(RV::mk(RV::Obj)); }
                 emit(v);
             }
         } else if (stage == "numbers" || stage == "numbers_dense") {
